@@ -12,6 +12,7 @@ CONSTANTS
   MaxDel = 1
   Interleave = TRUE
   MidEnv = TRUE
+  BFin = FALSE
   FixBump = FALSE
 VIEW view
 CHECK_DEADLOCK FALSE
